@@ -88,7 +88,7 @@ type BehavCheck struct {
 	// OwnFindings are the finding ids that belong to this property.
 	OwnFindings map[string]bool
 	Deadline    time.Duration
-	PostRun     func(ev *Evidence) error
+	PostRun     func(ev *Evidence) (violations []string, known []string, err error)
 }
 
 var backends = []string{"mem", "mem", "mem", "mem", "mem", "prefix", "prefix", "level", "level", "prefixlevel"}
@@ -455,10 +455,15 @@ func (c *BehavCheck) Run() int {
 	ev.Coverage["observations_explained_by_listed_finding"] = toleratedObs
 	ev.Coverage["simulation"] = fmt.Sprintf("tlc -simulate num=%d x %d workers, depth %d, K=%d V=%d IVs=%s, seed %d", c.Sim.Num, c.Sim.Workers, c.Sim.D, c.Sim.K, c.Sim.V, c.Sim.IVs, c.Seed)
 	ev.Violations = len(violations)
+	var extraKnown []string
 	if c.PostRun != nil {
-		if err := c.PostRun(ev); err != nil {
+		vs, kn, err := c.PostRun(ev)
+		if err != nil {
 			return fail(2, "INCONCLUSIVE: "+err.Error())
 		}
+		violations = append(violations, vs...)
+		extraKnown = kn
+		ev.Violations = len(violations)
 	}
 	// vacuity guard: the actions the property is about must have occurred
 	var ids []string
@@ -468,6 +473,9 @@ func (c *BehavCheck) Run() int {
 	sort.Strings(ids)
 	for _, id := range ids {
 		fmt.Printf("KNOWN-FINDING: property=%s %s %s\n", c.ID, id, knownSeen[id])
+	}
+	for _, l := range extraKnown {
+		fmt.Println(l)
 	}
 	if err := WriteEvidence(ev, start); err != nil {
 		fmt.Println("INCONCLUSIVE: cannot write evidence:", err)
